@@ -21,6 +21,24 @@ type splineCase struct {
 	Panic    string          `json:"panic,omitempty"`
 	Pieces   [][4][2]float64 `json:"pieces,omitempty"`
 	Problems []string        `json:"problems,omitempty"`
+	// containment, measured on 401 samples per piece: the largest distance of a sample from the corridor, and the
+	// largest distance from the nearest corridor vertex among the samples that are more than 0.05 outside
+	MaxExcursion    float64 `json:"max_excursion"`
+	OutsideToVtx    float64 `json:"outside_max_dist_to_vertex"`
+	OnlyContainment bool    `json:"only_containment,omitempty"` // every problem is a containment problem
+	// every stretch of the curve that is outside the corridor begins and ends next to a corridor vertex (within one
+	// unit, the samples being up to 0.8 apart): the curve leaves and re-enters THROUGH vertices
+	ThroughVertices bool `json:"through_vertices,omitempty"`
+}
+
+func distToCorridor(rs []autog.VerifRect, x, y float64) float64 {
+	best := math.Inf(1)
+	for _, r := range rs {
+		dx := math.Max(math.Max(r.TLX-x, 0), x-r.BRX)
+		dy := math.Max(math.Max(r.TLY-y, 0), y-r.BRY)
+		best = math.Min(best, math.Hypot(dx, dy))
+	}
+	return best
 }
 
 func bez(p [4][2]float64, t float64) (float64, float64) {
@@ -82,15 +100,50 @@ func runSplineCase(c corridor) splineCase {
 			sc.Problems = append(sc.Problems, fmt.Sprintf("pieces %d and %d do not join: %v vs %v", i-1, i, ps[i-1][3], ps[i][0]))
 		}
 	}
+	structural := len(sc.Problems)
+	vtxDist := func(x, y float64) float64 {
+		dv := math.Inf(1)
+		for _, q := range corners(c.Rects) {
+			dv = math.Min(dv, math.Hypot(q[0]-x, q[1]-y))
+		}
+		return dv
+	}
+	through := true
 	for i, p := range ps {
+		reported := false
+		inRun := false
+		var lastX, lastY float64
 		for k := 0; k <= 400; k++ {
 			x, y := bez(p, float64(k)/400)
-			if math.IsNaN(x) || math.IsNaN(y) || !nearCorridor(c.Rects, x, y, 0.05+1e-9) {
-				sc.Problems = append(sc.Problems, fmt.Sprintf("piece %d leaves the corridor by more than 0.05 at t=%.4f: (%.4f, %.4f)", i, float64(k)/400, x, y))
+			if math.IsNaN(x) || math.IsNaN(y) {
+				sc.Problems = append(sc.Problems, fmt.Sprintf("piece %d has a NaN point at t=%.4f", i, float64(k)/400))
+				structural++
 				break
 			}
+			d := distToCorridor(c.Rects, x, y)
+			sc.MaxExcursion = math.Max(sc.MaxExcursion, d)
+			out := d > 0.05+1e-9
+			if out {
+				sc.OutsideToVtx = math.Max(sc.OutsideToVtx, vtxDist(x, y))
+				if !inRun && vtxDist(x, y) > 1.0 {
+					through = false // the curve left the corridor away from any vertex
+				}
+				if !reported {
+					reported = true
+					sc.Problems = append(sc.Problems, fmt.Sprintf("piece %d leaves the corridor by more than 0.05 at t=%.4f: (%.4f, %.4f)", i, float64(k)/400, x, y))
+				}
+				lastX, lastY = x, y
+			} else if inRun && vtxDist(lastX, lastY) > 1.0 {
+				through = false // it came back in away from any vertex
+			}
+			inRun = out
+		}
+		if inRun {
+			through = false // a piece ends inside the corridor (on a path point)
 		}
 	}
+	sc.ThroughVertices = through && sc.MaxExcursion > 0.05+1e-9
+	sc.OnlyContainment = structural == 0 && len(sc.Problems) > 0
 	return sc
 }
 
